@@ -145,6 +145,9 @@ func sigFor(ops []Op, at int, kind, which, class string) string {
 	if f.IsCtl() {
 		cmd = "!" + f.Ctl
 	}
+	if kind == "c10" {
+		return which // the C10 classes carry their complete signature
+	}
 	// Refinement for the input class of DESIGN.md 1.6 #1: the command at which
 	// the disagreement shows (state and identities are checked right after every
 	// command, so a corrupting write is caught at that write) repeats an argument.
